@@ -167,7 +167,7 @@ func (m *monitor) checkTokens(stream string, idx int, b *builder) {
 			m.violation(k, fmt.Sprintf("token %d (%s %q) is at offset %d, line %d, column %d; the lexer reports Pos=%d Lline=%d Lpos=%d",
 				i, g.kind, trunc(g.text, 30), g.offset, g.line, g.col, t.Pos, t.Lline, t.Lpos), stream, idx, src,
 				map[string]interface{}{"token_index": i, "token_kind": g.kind, "previous_kind": prev,
-					"true": map[string]int{"offset": g.offset, "line": g.line, "column": g.col},
+					"true":     map[string]int{"offset": g.offset, "line": g.line, "column": g.col},
 					"reported": map[string]int{"offset": t.Pos, "line": t.Lline, "column": t.Lpos}})
 		}
 	}
@@ -279,6 +279,9 @@ func (m *monitor) checkSeparation(stream string, idx int, r *core.Rand) {
 		}
 	}
 	m.ev("separation.ok")
+	if idx%1600 == 0 {
+		m.c.Sample("sep", map[string]interface{}{"input_quoted": fmt.Sprintf("%q", trunc(src, 300)), "statements": n})
+	}
 	m.c.Nontrivial(core.Hash64("sep|" + src))
 }
 
@@ -364,6 +367,9 @@ func (m *monitor) checkParseError(stream string, idx int, r *core.Rand) {
 		return
 	}
 	m.ev("parse-error.ok:" + fmt.Sprint(pe.Type))
+	if idx%1600 == 0 {
+		m.c.Sample("perr", map[string]interface{}{"input_quoted": fmt.Sprintf("%q", trunc(src, 300)), "planted": kind, "line": want.line, "column": want.col, "error": pe.Error()})
+	}
 	m.c.Nontrivial(core.Hash64("perr|" + src))
 }
 
@@ -435,6 +441,9 @@ func (m *monitor) checkRuntimeError(stream string, idx int, r *core.Rand) {
 		return
 	}
 	m.ev("runtime-error.ok")
+	if idx%1600 == 0 {
+		m.c.Sample("rerr", map[string]interface{}{"input_quoted": fmt.Sprintf("%q", trunc(src, 300)), "planted": p.text, "line": want.line, "column": want.col, "error": re.Error()})
+	}
 	m.c.Nontrivial(core.Hash64("rerr|" + src))
 }
 
@@ -449,9 +458,9 @@ func (m *monitor) checkBreakpoint(stream string, idx int, r *core.Rand) {
 	k := r.Intn(n)
 	vs := scope.NewScope(scope.GlobalScope)
 	dbg := interpreter.NewECALDebugger(vs)
-	erp := interpreter.NewECALRuntimeProvider(srcName, &util.MemoryImportLocator{Files: map[string]string{}}, util.NewNullLogger())
-	go erp.Cron.Stop() // never synchronously (can deadlock with the cron tick)
+	erp := m.erp // one provider for all cases; only the debugger is per case
 	erp.Debugger = dbg
+	defer func() { erp.Debugger = nil }()
 	dbg.SetBreakPoint(srcName, st[k].line)
 	type obs struct {
 		line       int
@@ -503,6 +512,9 @@ func (m *monitor) checkBreakpoint(stream string, idx int, r *core.Rand) {
 		m.violation("diff:breakpoint-wrong-statement", fmt.Sprintf("a break point on line %d (statement %s) suspended the evaluation elsewhere (line %d)", st[k].line, st[k].name, o.line), stream, idx, src, d)
 	default:
 		m.ev("breakpoint.ok")
+		if idx%1600 == 0 {
+			m.c.Sample("bp", map[string]interface{}{"input_quoted": fmt.Sprintf("%q", trunc(src, 300)), "breakpoint_line": st[k].line, "statement": st[k].name})
+		}
 		m.c.Nontrivial(core.Hash64("bp|" + src + fmt.Sprint(k)))
 	}
 }
